@@ -213,7 +213,9 @@ func extractArgumentsType(f *ast.FuncDecl) ([]string, bool) {
 	var fields []*ast.Field
 	if f.Recv != nil {
 		if len(f.Recv.List) != 1 {
-			panic("Expect only one receiver; please fix panicparse's code")
+			// The parser accepts "func () f()" and "func (a A, b B) f()". Such a
+			// source cannot be the one the binary was built from.
+			return nil, false
 		}
 		// If it is an object receiver (vs a pointer receiver), its address is not
 		// printed in the stack trace so it needs to be ignored.
